@@ -334,7 +334,8 @@ SPEC = {
              'composition on plain netlists gives the expected input list, output list, gate label set, per-output truth '
              'table, and the calls that must be rejected; plus attached circuit unchanged, wellformed(), agreement of '
              'evaluate / evaluate_full_circuit, and block extraction == attached circuit. Non-trivial: >=1 connector pair '
-             'and both circuits have a non-input gate.'),
+             'and both circuits have a non-input gate.'
+             ' Added during the build: repeated replaced-side connector pairs (an accepted duplicate pair is held to the composition of the distinct pairs), live connector lists, full explicit connector lists, attached circuits whose labels already carry the block prefix.'),
     'assumptions': ['reference composition model in props/c10.py written from the connect_circuit docstring'],
     'subs': [Sub('compose', cases, check_compose, {'quick': 2500, 'thorough': 200000})],
     'required_classes': {'compose': ['entry:connect_circuit', 'entry:connect_left', 'entry:connect_right',
